@@ -34,10 +34,20 @@ pub enum Leave {
     Exit,
 }
 
+/// What a receiver does after it obtained (and answered) a request.
+#[derive(Clone, Debug, PartialEq)]
+pub enum AfterGet {
+    /// call again at once
+    Continue,
+    /// be busy with something else for a while before looking at the queue again
+    HoldMs(u64),
+}
+
 #[derive(Clone, Debug)]
 pub struct RecvScript {
     pub ops: Vec<Op>,
     pub leave: Leave,
+    pub after_get: AfterGet,
 }
 
 #[derive(Clone, Debug)]
@@ -88,7 +98,7 @@ impl Shared {
 
 fn gen_trial(rng: &mut Rng, id: u64) -> Trial {
     let p = rng.range(1, 6);
-    let conns = (0..p)
+    let conns: Vec<ConnPlan> = (0..p)
         .map(|_| {
             let m = if rng.chance(1, 4) { rng.range(10, 30) } else { rng.range(1, 6) };
             ConnPlan { m, pipelined: rng.chance(1, 2), gaps_us: (0..m).map(|_| if rng.chance(1, 2) { 0 } else { rng.range(0, 4000) as u64 }).collect() }
@@ -96,8 +106,32 @@ fn gen_trial(rng: &mut Rng, id: u64) -> Trial {
         .collect();
     let c = rng.range(1, 8);
     let mut receivers = Vec::new();
+    // a quarter of the trials: an application whose workers are busy for a while after each
+    // request. A request queued meanwhile must go to another blocked worker at once.
+    let busy_workers = rng.chance(1, 4);
+    if busy_workers {
+        let nb = rng.range(2, 4);
+        for _ in 0..nb {
+            receivers.push(RecvScript {
+                ops: vec![if rng.chance(1, 2) { Op::Recv } else { Op::IterNext }],
+                leave: Leave::Loop,
+                after_get: AfterGet::HoldMs(rng.range(400, 600) as u64),
+            });
+        }
+        // a burst: every connection sends its first request at once, few requests in total
+        let conns: Vec<ConnPlan> = conns
+            .into_iter()
+            .map(|mut c| {
+                c.m = c.m.min(2);
+                c.gaps_us.truncate(c.m);
+                c.gaps_us[0] = 0;
+                c
+            })
+            .collect();
+        return Trial { id, conns, receivers };
+    }
     // receiver 0 never leaves: whatever is queued must reach it
-    receivers.push(RecvScript { ops: vec![if rng.chance(1, 2) { Op::Recv } else { Op::IterNext }], leave: Leave::Loop });
+    receivers.push(RecvScript { ops: vec![if rng.chance(1, 2) { Op::Recv } else { Op::IterNext }], leave: Leave::Loop, after_get: AfterGet::Continue });
     let touts = [0u64, 300, 900, 2000, 5000, 20000];
     for _ in 1..c {
         let n = rng.range(1, 3);
@@ -114,7 +148,7 @@ fn gen_trial(rng: &mut Rng, id: u64) -> Trial {
             1 => Leave::Exit,
             _ => Leave::SleepMs(rng.range(5, 80) as u64),
         };
-        receivers.push(RecvScript { ops, leave });
+        receivers.push(RecvScript { ops, leave, after_get: AfterGet::Continue });
     }
     Trial { id, conns, receivers }
 }
@@ -177,6 +211,12 @@ pub fn receiver_loop(server: Arc<Server>, sh: Arc<Shared>, trial: u64, ridx: usi
                     }
                 }
                 let _ = lib(|| rq.respond(Response::from_string("ok")));
+                if let AfterGet::HoldMs(ms) = script.after_get {
+                    let end = Instant::now() + Duration::from_millis(ms);
+                    while Instant::now() < end && !sh.stop.load(Ordering::SeqCst) {
+                        sleep_us(500);
+                    }
+                }
             }
             Ok(None) => {
                 sh.empty_returns.fetch_add(1, Ordering::SeqCst);
